@@ -7,3 +7,5 @@ import DiplomatModel.Props.C08
 #print axioms DiplomatModel.Props.C08.size_is_rounded_end
 #print axioms DiplomatModel.Props.C08.empty_struct
 #print axioms DiplomatModel.Props.C08.option_layout
+#print axioms DiplomatModel.Props.C08.option_flag_offset
+#print axioms DiplomatModel.Props.C08.force_padding_iff
